@@ -17,7 +17,7 @@ DESIGN_REF = "DESIGN.md section 6, C02"
 
 
 def correspondence(ctx):
-    pipeline.numeric_campaign(ctx, ["C02"], ("chi",), 24, 250, max_modes_quick=3, max_modes_thorough=4,
+    pipeline.numeric_campaign(ctx, ["C02"], ("chi",), 24, 250, near=4, max_modes_quick=3, max_modes_thorough=4,
                               trunc=False,
                               nontrivial=lambda meta, s: meta["modes"] >= 2)
 
